@@ -57,8 +57,8 @@ CHECKS = {
             "DESIGN.md 4/C05"),
     "C06": ("fault_enumeration",
             "exhaustive enumeration job x failure manifestation x enforcement level x schedule on the real runtime, dependency-closure oracle, restart after fault removal",
-            "For 8 (quick) / 12 (thorough) pipeline shapes every job of the fault-free run is made to fail in each of 12 metadata-level manifestations (error/assert files, process vanishing, non-zero exit, truncated/missing/ill-typed/extra-key _outs, bad _stage_defs) at enforcement levels disable and error, under the default schedule and with the failing job slowest; oracle: failed (never success or hang) where the manifestation is decided to be fatal, the reported fqname lies in the failing stage, no dependent call started (reference dependency closure), independent jobs untouched, and a restart without the fault completes with the reference outputs without re-running completed jobs.",
-            "process-level manifestations through the real mrjob/adapters and auto-retry are not exercised (model job writes what mrjob would); chunk-level type faults and extra keys are fatal only at --strict=error",
+            "For 8 (quick) / 12 (thorough) pipeline shapes every job of the fault-free run is made to fail in each of 12 metadata-level manifestations (error/assert files, process vanishing, non-zero exit, truncated/missing/ill-typed/extra-key _outs, bad _stage_defs) at enforcement levels disable and error, under the default schedule and with the failing job slowest; with automatic retry enabled every job additionally dies from a signal on its first 1 / 2 / all attempts with 1 or 2 retries allowed (must recover exactly when the failures fit the retries, running the failing job once per attempt and nothing else twice; otherwise fail naming the stage) and a stage-raised error must never be retried; oracle: failed (never success or hang) where the manifestation is decided to be fatal, the reported fqname lies in the failing stage, no dependent call started (reference dependency closure), independent jobs untouched, and a restart without the fault completes with the reference outputs without re-running completed jobs.",
+            "process-level manifestations through the real mrjob/adapters are not exercised (model job writes what mrjob would); automatic retry is the harness's transcription of cmd/mrp attemptRetry + restart (IsErrorTransient, RefreshState, CheckHeartbeats, Unlock, ReattachToPipestance, Reset, LoadMetadata) with the default retry pattern '^signal: '; chunk-level type faults and extra keys are fatal only at --strict=error",
             "DESIGN.md 4/C06"),
     "C07": ("exploration",
             "bounded-exhaustive (source type, parameter type, binding context) enumeration; accepted programs executed at --strict=error with three output valuations; reference relation and reference validator",
